@@ -73,8 +73,6 @@ package test
 //@            len(br.queue0to1) == atlock(len(br.queue0to1)) + atlock(len(br.stack0)) + 1 && isCopy(br.queue0to1[atlock(len(br.queue0to1))], packet) && fresh(base(br.queue0to1[atlock(len(br.queue0to1))])) &&
 //@            (forall k mathint :: {br.queue0to1[k]} 0 <= k && k < atlock(len(br.queue0to1)) ==> br.queue0to1[k] == atlock(br.queue0to1[k])) &&
 //@            (forall k mathint :: {br.queue0to1[k]} atlock(len(br.queue0to1)) < k && k < len(br.queue0to1) ==> br.queue0to1[k] == atlock(br.stack0[atlock(len(br.queue0to1)) + atlock(len(br.stack0)) - k]))
-//@   ghost after inverse#1: assert [lemmaFirst0] fromID == 0 && len(br.stack0) >= 2 ==> br.stack0[0] == data; assert [lemmaRest0] fromID == 0 && len(br.stack0) >= 2 ==> (forall k mathint :: {br.stack0[k]} 1 <= k && k < len(br.stack0) ==> br.stack0[k] == atlock(br.stack0[atlock(len(br.stack0)) - k])); assert [lemmaFirst1] fromID != 0 && len(br.stack1) >= 2 ==> br.stack1[0] == data; assert [lemmaRest1] fromID != 0 && len(br.stack1) >= 2 ==> (forall k mathint :: {br.stack1[k]} 1 <= k && k < len(br.stack1) ==> br.stack1[k] == atlock(br.stack1[atlock(len(br.stack1)) - k]))
-//@   ghost at unlock: assert [lemmaHead0] fromID == 0 && atlock(br.dropNWrites0) <= 0 && atlock(br.reorderNWrites0) == 1 && !br.conn0.closing && !br.conn1.closing ==> len(br.queue0to1) == atlock(len(br.queue0to1)) + atlock(len(br.stack0)) + 1 && br.queue0to1[atlock(len(br.queue0to1))] == data
 //@   ensures [d0.plain] !br.conn0.closing && !br.conn1.closing && fromID == 0 && atlock(br.dropNWrites0) <= 0 && atlock(br.reorderNWrites0) <= 0 && atlock(br.filterCB0) == nil ==> sameSeq(br.stack0, atlock(br.stack0)) &&
 //@            len(br.queue0to1) == atlock(len(br.queue0to1)) + 1 && isCopy(br.queue0to1[atlock(len(br.queue0to1))], packet) && fresh(base(br.queue0to1[atlock(len(br.queue0to1))])) &&
 //@            (forall k mathint :: {br.queue0to1[k]} 0 <= k && k < atlock(len(br.queue0to1)) ==> br.queue0to1[k] == atlock(br.queue0to1[k]))
